@@ -46,6 +46,24 @@ func c10Body(ops []string) func(x *sched.X) {
 		vgd := w.Craft(M, w.Contract("vgd", G, A, []byte("d")), tip.Hash, tip.Hash, tip.Weight+1)
 		vgs := w.Craft(M, w.Tx("vgs", G, A, 1, 0), tip.Hash, tip.Hash, tip.Weight+1)
 		vte := w.Craft(M, w.Tx("vte", R, A, 0, 0), tip.Hash, tip.Hash, tip.Weight+1)
+		// ops of the form "stream+<kind>": the serving peer is malicious and appends a rule-breaking vertex (sealed on
+		// the tip, signatures valid) to the stream it sends to the joining node
+		var real []string
+		for _, op := range ops {
+			switch op {
+			case "stream+self-sealed":
+				vs = append(vs, w.Craft(M, w.Tx("sself", M, A, 1, 0), tip.Hash, tip.Hash, tip.Weight+1))
+			case "stream+self-sealed-contract":
+				vs = append(vs, w.Craft(M, w.Contract("sselfc", M, A, []byte("d")), tip.Hash, tip.Hash, tip.Weight+1))
+			case "stream+genesis-issued":
+				vs = append(vs, w.Craft(M, w.Contract("sgen", G, A, []byte("d")), tip.Hash, tip.Hash, tip.Weight+1))
+			case "stream+empty":
+				vs = append(vs, w.Craft(M, w.Tx("sempty", R, A, 0, 0), tip.Hash, tip.Hash, tip.Weight+1))
+			default:
+				real = append(real, op)
+			}
+		}
+		ops = real
 		ch := vsched.MakeChan[*accountant.Vertex](0)
 		vsched.Quiet(false)
 		res := make([]string, len(ops))
@@ -111,6 +129,9 @@ func c10Oracle(name string) func(x *sched.X, r *vsched.Result) []common.Violatio
 			return out
 		}
 		w := x.Vars["w"].(*world.LW)
+		if !x.Vars["joiner"].(*world.Node).Book.DagLoaded() {
+			return out // the load was refused: the node is not in service (what a refused load leaves behind is C14's subject)
+		}
 		for _, v := range ledger.SnapshotOracles(w, x.Vars["joiner"].(*world.Node), "C10") {
 			v.What = name + " (requests racing the sync): " + v.What
 			v.Key += "/during-sync"
@@ -134,6 +155,10 @@ func c10Scenarios() map[string]*sched.Scenario {
 	add("sync||add-genesis-transfer", "add-vgs")
 	add("sync||create-own-wallet", "create-nd")
 	add("sync||empty-transactions", "create-te", "add-vte")
+	add("sync-of-stream-with-self-sealed-transfer", "stream+self-sealed")
+	add("sync-of-stream-with-self-sealed-contract", "stream+self-sealed-contract")
+	add("sync-of-stream-with-genesis-issued-vertex", "stream+genesis-issued")
+	add("sync-of-stream-with-empty-transaction", "stream+empty")
 	return m
 }
 
